@@ -196,6 +196,9 @@ def meta_ops(mod):
         "by_fields_all": lambda c: getattr(c.find_type_by_fields({"value", "a", "b"}), "__name__", None),
         "all_vars": lambda c: [[v.name for v in c.build(k).get_all_vars()] for k in (mod.TextAttr, mod.Shuffled)],
         "xml_text": lambda c: XmlSerializer(context=c, config=cfg).render(ta),
+        # xsi:type resolution walks what the context knows while other threads make it know more
+        "xml_xsi": lambda c: XmlParser(context=c).from_string(
+            f'<TextAttr xmlns="urn:m" xmlns:xsi="{XSI}" xsi:type="TextMore" a="1" c="z">t</TextAttr>', mod.TextAttr),
         "xml_shuffled": lambda c: XmlParser(context=c).from_string(
             '<Shuffled xmlns="urn:m" k="3" m="n"><e1>p</e1><e2>4</e2><t a="2">u</t></Shuffled>', mod.Shuffled),
     }
@@ -220,7 +223,8 @@ def explore_meta(ctx, max_pre, limit):
     # operations that meet in the same lazily computed / scratch state are explored EXHAUSTIVELY for one preemption
     # (every yield point of the one, then the other to its end); the other pairs up to a limit
     families = [{"dec_text_noclass", "dec_subset_noclass", "by_fields", "by_fields_all"},
-                {"enc_text", "enc_shuffled", "all_vars", "dec_text", "xml_text"}]
+                {"enc_text", "enc_shuffled", "all_vars", "dec_text", "xml_text"},
+                {"xml_xsi", "all_vars", "enc_shuffled"}]
     for i, a in enumerate(names):
         for b in names[i:]:
             related = any(a in f and b in f for f in families)
@@ -247,12 +251,12 @@ def explore_meta(ctx, max_pre, limit):
     # interrupted, the reader to be interrupted, and the builder to publish in between)
     sched2 = sched.Scheduler(cb.meta_markers(context_only=True), timeout=20.0)
     for a in ("by_fields", "dec_subset_noclass"):
-        for b in ("all_vars", "enc_shuffled", "xml_text"):
+        for b in ("all_vars", "enc_shuffled"):
             def run_twice(prefix, a=a, b=b):
                 xctx = fresh()
                 return sched2.run([lambda: ops[b](xctx), lambda: ops[a](xctx)], sched.choices(prefix))
 
-            for r in sched.explore(run_twice, 2, ctx.pick(300, 5000)):
+            for r in sched.explore(run_twice, 2, ctx.pick(220, 5000)):
                 total += 1
                 ctx.case(json.dumps(("meta2", a, b, [d.chosen for d in r.decisions])))
                 if r.diverged:
@@ -366,7 +370,7 @@ def run(ctx):
     n += explore_random(ctx, ms, scheduler, ctx.pick(30, 400), traces)
     ctx.extra["api_interleavings_explored"] = n
     # 3b. the shared binding metadata itself
-    ctx.extra["meta_interleavings_explored"] = explore_meta(ctx, 1, ctx.pick(25, 400))
+    ctx.extra["meta_interleavings_explored"] = explore_meta(ctx, 1, ctx.pick(10, 400))
     for i in range(0, len(traces), 2000):
         validate_traces(ctx, traces[i:i + 2000], f"Trace_ContextT batch {i // 2000}")
 
